@@ -56,6 +56,9 @@ template <typename T, typename CB>
 static typename plain_alg<T>::chk mpi_run(plain_alg<T>*, world<T>& w, rank_env<T>& e, std::vector<std::size_t> const& calls,
     typename plain_alg<T>::chk const& c, CB cb)
 {
+    if (w.h.get("dist2", 0) != 0)
+        return hep::mpi_plain(MPI_COMM_WORLD, hep::make_integrand<T>(e.f, w.d, hep::make_dist_params<T>(2, T(0.0), T(1.0), "first"),
+            hep::make_dist_params<T>(2, T(0.0), T(1.0), w.name())), calls, c, cb);
     if (w.dist)
         return hep::mpi_plain(MPI_COMM_WORLD, hep::make_integrand<T>(e.f, w.d, hep::make_dist_params<T>(2, T(0.0), T(1.0), w.name())), calls, c, cb);
     return hep::mpi_plain(MPI_COMM_WORLD, hep::make_integrand<T>(e.f, w.d), calls, c, cb);
@@ -64,6 +67,9 @@ template <typename T, typename CB>
 static typename vegas_alg<T>::chk mpi_run(vegas_alg<T>*, world<T>& w, rank_env<T>& e, std::vector<std::size_t> const& calls,
     typename vegas_alg<T>::chk const& c, CB cb)
 {
+    if (w.h.get("dist2", 0) != 0)
+        return hep::mpi_vegas(MPI_COMM_WORLD, hep::make_integrand<T>(e.f, w.d, hep::make_dist_params<T>(2, T(0.0), T(1.0), "first"),
+            hep::make_dist_params<T>(2, T(0.0), T(1.0), w.name())), calls, c, cb);
     if (w.dist)
         return hep::mpi_vegas(MPI_COMM_WORLD, hep::make_integrand<T>(e.f, w.d, hep::make_dist_params<T>(2, T(0.0), T(1.0), w.name())), calls, c, cb);
     return hep::mpi_vegas(MPI_COMM_WORLD, hep::make_integrand<T>(e.f, w.d), calls, c, cb);
